@@ -117,6 +117,7 @@ func c31Run(in c31In) (V, Verdict) {
 		"tail-flag-tested-before-timestamp-change":      true,
 		"consumed-packets-rebuilt-after-active-drained": true,
 		"stale-packet-accepted-after-buffer-drained":    true,
+		"frame-after-dropped-headless-run-skipped":      true,
 	}
 	failKnown := func(sig, what string) {
 		if verdict.OK {
@@ -133,7 +134,7 @@ func c31Run(in c31In) (V, Verdict) {
 	var emitted []c31Emitted
 	seenG := map[int]int{} // g -> index in emitted
 	epoch, pushes, firstG := 0, 0, -1
-	lastPopNonNil := false
+	drained, flushed := false, false // last op was a Pop returning nil; a Flush came after the last Push
 	obs := make(VL, 0, len(in.Ops))
 	durLim := int64(8388608) * 1000000000 / int64(in.Rate)
 
@@ -161,15 +162,17 @@ func c31Run(in c31In) (V, Verdict) {
 			pushes++
 			live[op.Seq] = p
 			sb.Push(p)
+			drained, flushed = false, false
 		case 1:
 			s := sb.Pop()
-			lastPopNonNil = s != nil
+			drained = s == nil
 			if s != nil {
 				sampleV = VL{c31SampleV(in, s, durLim)}
 				c31CheckSample(s, k, pushedByKey, &emitted, seenG, failNew, failKnown)
 			}
 		case 2:
 			sb.Flush()
+			drained, flushed = false, true
 		}
 		st := sb.VerifState()
 		for _, id := range releasedNow {
@@ -187,25 +190,33 @@ func c31Run(in c31In) (V, Verdict) {
 	}
 
 	// completeness: loss-free, reordered within the bound, every frame emitted after Flush
-	if in.Complete && !lastPopNonNil {
+	if in.Complete && flushed && drained {
 		got := map[string]bool{}
 		for _, e := range emitted {
 			got[fmt.Sprint(e.gs)] = true
 		}
-		for _, fr := range in.Frames {
+		hasBelow := func(fr []int) bool {
+			for _, g := range fr {
+				if g < firstG {
+					return true
+				}
+			}
+			return false
+		}
+		for j, fr := range in.Frames {
 			if got[fmt.Sprint(fr)] {
 				continue
 			}
-			below := false
-			for _, g := range fr {
-				if g < firstG {
-					below = true
-				}
-			}
-			if below {
+			switch {
+			case hasBelow(fr):
 				failKnown("packet-below-first-pushed-seq-never-emitted",
 					fmt.Sprintf("loss-free stream, first pushed packet is stream index %d; frame %v (complete, delivered) never emitted", firstG, fr))
-			} else {
+			case j > 0 && hasBelow(in.Frames[j-1]):
+				// the frame before lost its head to the cause above and was dropped as a headless run by a
+				// forced build; purgeBuffers then advances active.head once more, over this frame's first packet
+				failKnown("frame-after-dropped-headless-run-skipped",
+					fmt.Sprintf("frame %v never emitted: the forced build that dropped the headless run %v before it also skipped its first packet", fr, in.Frames[j-1]))
+			default:
 				failNew("complete-frame-not-emitted", fmt.Sprintf("loss-free stream within the reorder bound: frame %v never emitted", fr))
 			}
 		}
@@ -772,7 +783,29 @@ func c31Corpus() []c31In {
 		ts += 10
 	}
 	w8.Ops = append(w8.Ops, fl, pop, pop, pop)
-	return []c31In{w1, w2, w3, w4, w5, w6, w7, w8}
+	// 9. forced build drops a headless run and skips the next frame's first packet: frames [0..5], [6];
+	//    first pushed is packet 2, a Pop anchors the window there; Flush drops [2..5] and never emits [6]
+	w9 := base("witness-skip-after-headless-run", 16)
+	w9.Complete = true
+	w9.Frames = [][]int{{0, 1, 2, 3, 4, 5}, {6}}
+	fl6 := func(g int) byte {
+		switch g {
+		case 0:
+			return 1
+		case 5:
+			return 2
+		}
+		return 0
+	}
+	for _, g := range []int{2, -1, 0, 4, 1, 5, 3} {
+		if g < 0 {
+			w9.Ops = append(w9.Ops, pop)
+			continue
+		}
+		w9.Ops = append(w9.Ops, c31Push(g, uint16(35420+g), 2068359564, fl6(g)))
+	}
+	w9.Ops = append(w9.Ops, c31Push(6, 35426, 2068359807, 3), fl, pop, pop, pop)
+	return []c31In{w1, w2, w3, w4, w5, w6, w7, w8, w9}
 }
 
 func c31Shrink(in c31In) []c31In {
